@@ -2245,22 +2245,18 @@ fn generate_constraints_iface_def(ctx: &mut StaticsContext, iface_def: &Rc<Inter
             Some(&method.ret_type),
         );
 
-        if let Some(method_ty) = node_ty.solution()
-            && let SolvedType::Function(args, ret) = method_ty
-        {
+        // (a parameter without annotation leaves the method's type unsolved, so look at the
+        // parameters and the return type one by one)
+        if let Some(PotentialType::Function(_, args, ret)) = node_ty.single() {
             let mut found = false;
-            for arg in args {
+            for arg in args.iter().chain(std::iter::once(&ret)) {
                 // TODO: in the future, recursively search subtypes for Self instead of just toplevel args and return type.
-                if let SolvedType::Poly(PolytypeDeclaration::InterfaceSelf(iface)) = arg
+                if let Some(SolvedType::Poly(PolytypeDeclaration::InterfaceSelf(iface))) =
+                    arg.solution()
                     && iface == *iface_def
                 {
                     found = true;
                 }
-            }
-            if let SolvedType::Poly(PolytypeDeclaration::InterfaceSelf(iface)) = *ret
-                && iface == *iface_def
-            {
-                found = true;
             }
             if !found {
                 ctx.errors
